@@ -111,3 +111,7 @@ prop("C05", level="other",
                  "relative to the frames just consumed. The step from these contracts to 'two chunkings give the same samples' is a meta-argument "
                  "(DESIGN.md 4 C05), not a machine-checked relational proof.",
      trusted_base=FFT_TRUST, assumptions=list(tierb_async.ASSUME_TEXT))
+
+from . import known  # noqa: E402
+for _p in ("C03", "C04", "C06", "C14"):
+    PROPS[_p]["known"].append(known.replay_for(_p))
